@@ -223,6 +223,10 @@ class Repo:
                 self.trees[rel] = ast.parse(text, filename=rel)
             except SyntaxError as e:
                 raise AnalysisError(f"{rel} does not parse: {e}")
+        self.logging_dropped = 0
+        for rel in self.trees:
+            self.trees[rel], k_ = _drop_logging(self.trees[rel])
+            self.logging_dropped += k_
         self.named_constants = _inline_named_constants(self.trees)
         for rel in self.trees:
             self.trees[rel] = _split_tuple_assignments(self.trees[rel])
@@ -377,6 +381,12 @@ class Repo:
             for fi in list(lst):
                 node = specialise_function(self, fi)
                 if node is not None:
+                    try:            # unrolling a loop over a literal table creates the patterns of the load-time normal forms
+                        mod_ = _split_tuple_assignments(ast.Module(body=[node], type_ignores=[]))
+                        if len(mod_.body) == 1 and isinstance(mod_.body[0], ast.FunctionDef):
+                            node = mod_.body[0]
+                    except Exception:
+                        pass
                     self._replace_node(fi, node)
                     self.specialised.append(fi.qual)
 
@@ -642,6 +652,78 @@ def _external_canonical(call):
     return True
 
 
+_PURE_IN_LOG = {"len", "str", "repr", "int", "float", "sorted", "list", "tuple", "dict", "set", "sum", "min", "max", "round", "abs", "type", "id",
+                "format", "join", "keys", "values", "items", "get", "isoformat", "strftime", "tolist", "any", "all", "bool", "enumerate", "zip", "range"}
+_LOG_METHODS = {"debug", "info", "warning", "warn", "error", "critical", "exception", "log"}
+
+
+def _drop_logging(tree):
+    """Load-time normal form: a statement that only hands values to a logger (`logger.debug("...", x)`, `logging.info(...)`) changes nothing
+    the program reads afterwards - it is dropped, and the logger object itself (`logger = logging.getLogger(__name__)`) is bound to None.
+    A logging call whose arguments call anything but value formatters is kept as written (its arguments might have effects)."""
+    loggers = set()
+    for x in ast.walk(tree):
+        if isinstance(x, (ast.Assign, ast.AnnAssign)) and getattr(x, "value", None) is not None and isinstance(x.value, ast.Call) \
+                and dotted(x.value.func) in ("logging.getLogger", "getLogger"):
+            for t in (x.targets if isinstance(x, ast.Assign) else [x.target]):
+                d = dotted(t)
+                if d:
+                    loggers.add(d)
+    dropped = [0]
+
+    def is_log_call(c):
+        if not (isinstance(c, ast.Call) and isinstance(c.func, ast.Attribute) and c.func.attr in _LOG_METHODS):
+            return False
+        base = dotted(c.func.value)
+        if not (base in loggers or base == "logging" or (isinstance(c.func.value, ast.Call) and dotted(c.func.value.func) in ("logging.getLogger", "getLogger"))):
+            return False
+        for a in list(c.args) + [k.value for k in c.keywords]:
+            for y in ast.walk(a):
+                if isinstance(y, (ast.Await, ast.Yield, ast.YieldFrom, ast.NamedExpr)):
+                    return False
+                if isinstance(y, ast.Call):
+                    nm = y.func.attr if isinstance(y.func, ast.Attribute) else (y.func.id if isinstance(y.func, ast.Name) else None)
+                    if nm not in _PURE_IN_LOG:
+                        return False
+        return True
+
+    class L(ast.NodeTransformer):
+        def visit_Expr(self, n):
+            if is_log_call(n.value):
+                dropped[0] += 1
+                return ast.copy_location(ast.Pass(), n)
+            return n
+
+        def visit_If(self, n):
+            n = self.generic_visit(n)
+            # `if logger.isEnabledFor(..): <only logging>` leaves an empty branch behind
+            if all(isinstance(b, ast.Pass) for b in n.body) and not n.orelse and isinstance(n.test, ast.Call) and isinstance(n.test.func, ast.Attribute) \
+                    and n.test.func.attr == "isEnabledFor" and dotted(n.test.func.value) in loggers:
+                return ast.copy_location(ast.Pass(), n)
+            return n
+
+        def visit_Assign(self, n):
+            if isinstance(n.value, ast.Call) and dotted(n.value.func) in ("logging.getLogger", "getLogger"):
+                n.value = ast.copy_location(ast.Constant(value=None), n.value)
+            return n
+
+        def visit_AnnAssign(self, n):
+            if n.value is not None and isinstance(n.value, ast.Call) and dotted(n.value.func) in ("logging.getLogger", "getLogger"):
+                n.value = ast.copy_location(ast.Constant(value=None), n.value)
+            return n
+    tree = L().visit(tree)
+    # a body must not become empty / keep a leading docstring intact: Pass statements are harmless
+    return tree, dropped[0]
+
+
+# setattr(obj, <computed name>, ..) sites confirmed by reading: the names they can store are never those of class-level constants
+DYNAMIC_SETATTR_OK = {
+    ("acnportal/acnsim/base.py", "add_hook"): "names from dir(operator) filtered to __dunder__ names: operator hooks of the error stub class",
+    ("acnportal/acnsim/base.py", "_from_registry"): "generic loader fallback: restores the keys dumped from an instance's __dict__ (instance attributes; a class-level "
+                                                     "constant is in no instance __dict__ unless some store puts it there - and any static store disqualifies the name)",
+}
+
+
 def _inline_named_constants(trees):
     """Load-time normal form: a name that is bound exactly once to a closed literal - at module level (`_TOL = 1e-3`, also reached through
     `from .mod import _TOL`) or in a class body (`class C: TOL = 1e-3`, read as self.TOL / cls.TOL / C.TOL) - and never rebound (no other
@@ -700,7 +782,41 @@ def _inline_named_constants(trees):
     # attribute names stored anywhere (self.X = .., obj.X += ..): such a name is state, never a class constant
     attr_stored = set()
     globals_declared = {}
+    def literal_names(scope, var):
+        """the texts a loop variable ranges over when every loop over it in `scope` walks a literal list of texts (directly, through a
+        name bound once to such a literal in the scope / module, or a class-level tuple); None if not closed"""
+        lits = {}
+        for y in ast.walk(scope):
+            if isinstance(y, (ast.Assign, ast.AnnAssign)) and getattr(y, "value", None) is not None and isinstance(y.value, (ast.List, ast.Tuple)) \
+                    and all(isinstance(e, ast.Constant) and isinstance(e.value, str) for e in y.value.elts):
+                for t in (y.targets if isinstance(y, ast.Assign) else [y.target]):
+                    d = dotted(t)
+                    if d:
+                        lits.setdefault(d.split(".")[-1], []).append([e.value for e in y.value.elts])
+        out, found = set(), False
+        for y in ast.walk(scope):
+            it = None
+            if isinstance(y, (ast.For, ast.comprehension)) and isinstance(y.target, ast.Name) and y.target.id == var:
+                it = y.iter
+            if it is None:
+                continue
+            found = True
+            if isinstance(it, (ast.List, ast.Tuple)) and all(isinstance(e, ast.Constant) and isinstance(e.value, str) for e in it.elts):
+                out |= {e.value for e in it.elts}
+                continue
+            d = dotted(it)
+            key = d.split(".")[-1] if d else None
+            if key in lits and len(lits[key]) == 1:
+                out |= set(lits[key][0])
+                continue
+            return None
+        return out if found else None
+
     for rel, tree in trees.items():
+        parents = {}
+        for p in ast.walk(tree):
+            for ch in ast.iter_child_nodes(p):
+                parents[ch] = p
         for x in ast.walk(tree):
             if isinstance(x, ast.Attribute) and isinstance(x.ctx, (ast.Store, ast.Del)):
                 attr_stored.add(x.attr)
@@ -708,7 +824,22 @@ def _inline_named_constants(trees):
                 if isinstance(x.args[1], ast.Constant) and isinstance(x.args[1].value, str):
                     attr_stored.add(x.args[1].value)
                 else:
-                    attr_stored.add("*")
+                    names = None
+                    if isinstance(x.args[1], ast.Name):
+                        sc = x
+                        while sc in parents and not isinstance(sc, (ast.FunctionDef, ast.AsyncFunctionDef)):
+                            sc = parents[sc]
+                        names = literal_names(sc, x.args[1].id) if isinstance(sc, (ast.FunctionDef, ast.AsyncFunctionDef)) else None
+                        if names is None and isinstance(sc, (ast.FunctionDef, ast.AsyncFunctionDef)):
+                            # the literal may live at class / module level
+                            names = literal_names(tree, x.args[1].id)
+                    fn_name = sc.name if isinstance(sc, (ast.FunctionDef, ast.AsyncFunctionDef)) else None
+                    if names is None and (rel, fn_name) in DYNAMIC_SETATTR_OK:
+                        names = set()
+                    if names is None:
+                        attr_stored.add("*")
+                    else:
+                        attr_stored |= names
             elif isinstance(x, (ast.Global, ast.Nonlocal)):
                 globals_declared.setdefault(rel, set()).update(x.names)
 
@@ -782,15 +913,16 @@ def _inline_named_constants(trees):
                 v = None
                 if ok:
                     try:
-                        v = const_value(subst_known(val, {**mod.get(rel, {}), **imported.get(rel, {})}))
-                        ok = isinstance(v, SCALAR)
+                        val = subst_known(val, {**mod.get(rel, {}), **imported.get(rel, {})})
+                        v = const_value(val)
+                        ok = closed(v)
                     except (ValueError, TypeError, ZeroDivisionError, KeyError, IndexError):
                         ok = False
                 cls_vals.setdefault(tgt, []).append((ok, v, c.name, val))
     cls_const = {}
     for nm, lst in cls_vals.items():
         if all(ok for ok, *_ in lst) and len({(type(v).__name__, repr(v)) for _, v, *_ in lst}) == 1:
-            cls_const[nm] = (lst[0][1], {c for _, _, c, _ in lst})
+            cls_const[nm] = (lst[0][1], {c for _, _, c, _ in lst}, lst[0][3])
     class_names = {c.name for tree in trees.values() for c in ast.walk(tree) if isinstance(c, ast.ClassDef)}
 
     report = {}
@@ -877,6 +1009,9 @@ def _inline_named_constants(trees):
             def _container(self, e):
                 old, self.container_ok = self.container_ok, True
                 try:
+                    if isinstance(e, ast.Attribute):
+                        e._container_ok = True
+                        return self.visit_Attribute(e)
                     return self.visit(e) if isinstance(e, ast.Name) else e
                 finally:
                     self.container_ok = old
@@ -909,9 +1044,13 @@ def _inline_named_constants(trees):
                     base_ok = (isinstance(b, ast.Name) and (b.id in ("self", "cls") or b.id in cls_const[n.attr][1] or b.id in class_names)) \
                         or (isinstance(b, ast.Call) and isinstance(b.func, ast.Name) and b.func.id == "type" and len(b.args) == 1 and isinstance(b.args[0], ast.Name) and b.args[0].id == "self") \
                         or (isinstance(b, ast.Attribute) and b.attr == "__class__" and isinstance(b.value, ast.Name) and b.value.id == "self")
-                    if base_ok:
-                        used[f".{n.attr}"] = repr(cls_const[n.attr][0])
-                        return lit(cls_const[n.attr][0], n)
+                    cv = cls_const[n.attr][0]
+                    if base_ok and isinstance(cv, SCALAR):
+                        used[f".{n.attr}"] = repr(cv)
+                        return lit(cv, n)
+                    if base_ok and (isinstance(cv, (tuple, frozenset)) or getattr(n, "_container_ok", False)):
+                        used[f".{n.attr}"] = repr(cv)[:60]
+                        return ast.fix_missing_locations(ast.copy_location(_c.deepcopy(cls_const[n.attr][2]), n))
                 return n
 
             def visit_Assign(self, n):
@@ -936,6 +1075,10 @@ def _split_tuple_assignments(tree):
     class T(ast.NodeTransformer):
         def visit_Call(self, n):
             self.generic_visit(n)
+            # getattr(obj, "name")  with a literal identifier  is  obj.name
+            if isinstance(n.func, ast.Name) and n.func.id == "getattr" and len(n.args) == 2 and not n.keywords and isinstance(n.args[1], ast.Constant) \
+                    and isinstance(n.args[1].value, str) and n.args[1].value.isidentifier() and isinstance(n.args[0], (ast.Name, ast.Attribute)):
+                return ast.fix_missing_locations(ast.copy_location(ast.Attribute(value=n.args[0], attr=n.args[1].value, ctx=ast.Load()), n))
             # f(*(g(x) for x in (a, b)))  ->  f(g(a), g(b))     (a literal tuple of at most four elements)
             if any(isinstance(a, ast.Starred) and isinstance(a.value, (ast.GeneratorExp, ast.ListComp)) for a in n.args):
                 args, ok = [], True
@@ -1020,6 +1163,17 @@ def _split_tuple_assignments(tree):
                 test = conds[0] if len(conds) == 1 else ast.BoolOp(op=ast.And(), values=conds)
                 out.append(ast.copy_location(ast.If(test=test, body=[app], orelse=[]), n))
             return [ast.fix_missing_locations(o) for o in out]
+
+        def visit_Expr(self, n):
+            n = self.generic_visit(n)
+            # setattr(obj, "name", v)  with a literal identifier  is  obj.name = v
+            c = n.value if isinstance(n, ast.Expr) else None
+            if isinstance(c, ast.Call) and isinstance(c.func, ast.Name) and c.func.id == "setattr" and len(c.args) == 3 and not c.keywords \
+                    and isinstance(c.args[1], ast.Constant) and isinstance(c.args[1].value, str) and c.args[1].value.isidentifier() \
+                    and isinstance(c.args[0], (ast.Name, ast.Attribute)):
+                tgt = ast.Attribute(value=c.args[0], attr=c.args[1].value, ctx=ast.Store())
+                return self.visit_Assign(ast.fix_missing_locations(ast.copy_location(ast.Assign(targets=[tgt], value=c.args[2], type_comment=None), n)))
+            return n
 
         def visit_AnnAssign(self, n):
             # `x: T = v` is `x = v` (the annotation is not evaluated into anything the program reads); a bare `x: T` inside a function
